@@ -67,7 +67,7 @@ def run_case(case):
         detail = "IterateSATGen %d distinct, RandomGen %d distinct; only SAT: %s ; only RandomGen: %s ; gaps=%s ; design=%s" % (
             len(S), len(R), json.dumps(dict(only_s[0]))[:300] if only_s else None, json.dumps(dict(only_r[0]))[:300] if only_r else None,
             m.gaps, dast.describe(ast))
-        base.update(outcome="violation", signature=sig, detail=detail)
+        base.update(outcome="violation", signature=common.with_family(sig, m, [g for g in m.gaps if g in ("run-constraint-on-strided-factor", "latinsquare", "sequential-with-preamble")]), detail=detail)
         return base
     base["outcome"] = "ok"
     return base
